@@ -191,8 +191,8 @@ Definition server_auth (c : scfg) (q : rx) : authres :=
             match fetch_key (mkKeyreq (h_dst_ia h) (h_src_ia h) (h_dst_raw h) (h_src_raw h)) with
             | None => NoAuth
             | Some k =>
-                (* the pinned code panics when spao cannot compute the MAC (unregistered
-                   path type, defect D-C13a); the model takes the packet as not verified *)
+                (* spao cannot compute the MAC for an unregistered path type: the packet is
+                   not verified (fix: commit 5a2eaf3; before it the listener panicked here) *)
                 if mac_computable h && bytes_eqb (opt_mac o) (mac k (macin_rx o q)) then AuthOk k o else AuthBad
             end
           else NoAuth
